@@ -351,6 +351,15 @@ func (w *World) panicSites() []panicSite {
 						}
 					}
 				case *ssa.Slice:
+					// s[a:b] with two computed bounds: a <= b is an obligation of its own (each bound
+					// may be within range and the pair still cross)
+					if x.Low != nil && x.High != nil {
+						_, lc := stripTrivial(x.Low).(*ssa.Const)
+						_, hc := stripTrivial(x.High).(*ssa.Const)
+						if !lc && !hc && !boundsOrdered(x.Low, x.High, x.Block()) {
+							add(fn, "slice-bounds", "s[lo:hi] with two computed bounds and no established lo <= hi", x.Pos())
+						}
+					}
 					// s[a:b] where a or b derives from a search result that may be -1
 					for _, bound := range []ssa.Value{x.Low, x.High} {
 						if bound == nil {
@@ -1354,6 +1363,64 @@ func selfEvidentVariant(fs *ast.ForStmt) bool {
 		case token.GTR, token.GEQ: // v > bound: v falls
 			if try(b.X, b.Y, -1) || try(b.Y, b.X, 1) {
 				return true
+			}
+		}
+	}
+	return false
+}
+
+// boundsOrdered: lo <= hi holds at b: hi is lo plus something non-negative (lo + len(..),
+// lo + constant), or a dominating branch compared them (lo <= hi, lo < hi, hi >= lo, hi > lo).
+func boundsOrdered(lo, hi ssa.Value, b *ssa.BasicBlock) bool {
+	lo, hi = stripTrivial(lo), stripTrivial(hi)
+	if bo, ok := hi.(*ssa.BinOp); ok && bo.Op == token.ADD {
+		other := ssa.Value(nil)
+		if stripTrivial(bo.X) == lo {
+			other = stripTrivial(bo.Y)
+		} else if stripTrivial(bo.Y) == lo {
+			other = stripTrivial(bo.X)
+		}
+		if other != nil {
+			if k, ok := other.(*ssa.Const); ok && k.Value != nil && !strings.HasPrefix(constString(k.Value), "-") {
+				return true
+			}
+			if c, ok := other.(*ssa.Call); ok && calleeName(c) == "builtin.len" {
+				return true
+			}
+		}
+	}
+	for _, f := range dominatingFacts(b) {
+		cnd, pol := unwrapNot(f.Cond, f.Pol)
+		bo, ok := cnd.(*ssa.BinOp)
+		if !ok {
+			continue
+		}
+		x, y := stripTrivial(bo.X), stripTrivial(bo.Y)
+		op := bo.Op
+		if !pol {
+			switch op {
+			case token.LSS:
+				op = token.GEQ
+			case token.LEQ:
+				op = token.GTR
+			case token.GTR:
+				op = token.LEQ
+			case token.GEQ:
+				op = token.LSS
+			default:
+				continue
+			}
+		}
+		if (x == lo && y == hi && (op == token.LSS || op == token.LEQ)) || (x == hi && y == lo && (op == token.GTR || op == token.GEQ)) {
+			return true
+		}
+		// lo = v + 1 under v < hi
+		if lb, ok := lo.(*ssa.BinOp); ok && lb.Op == token.ADD {
+			if k, ok := stripTrivial(lb.Y).(*ssa.Const); ok && k.Value != nil && constString(k.Value) == "1" {
+				v := stripTrivial(lb.X)
+				if (x == v && y == hi && op == token.LSS) || (x == hi && y == v && op == token.GTR) {
+					return true
+				}
 			}
 		}
 	}
